@@ -481,6 +481,12 @@ class Exec:
                     for i, it in enumerate(split_top(args)):
                         p.pc.append(proj(v, "%s.%d" % (name, i)) == self.operand(p, it))
                 return v
+            if args is not None and re.match(r"^[A-Z]", name) and not prefix:
+                # tuple struct constructor `Name(a, b)`
+                v = fresh(name)
+                for i, it in enumerate(split_top(args)):
+                    p.pc.append(proj(v, "f%d" % i) == self.operand(p, it))
+                return v
         if re.match(r"^[A-Z]\w*$", r):
             # unit variant of an enum the executor does not know: one value per name, pairwise distinct
             key = ("u", r)
@@ -500,6 +506,10 @@ class Exec:
         m = re.match(r"^&(?:mut |raw const |raw mut )?(.+)$", r, re.S)
         if m:
             return self.place(p, m.group(1))
+        m = re.match(r"^([\w:<>]+) as .* \(PointerCoercion\(ReifyFnPointer", r, re.S)
+        if m:
+            # a function item reified to a function pointer: the value is the item
+            return self.const(p, m.group(1))
         m = re.match(r"^discriminant\((.+)\)$", r)
         if m:
             v = fresh("disc")
@@ -828,19 +838,23 @@ class Exec:
                     continue
                 if isinstance(r, list):  # forks: [(extra_condition, value)]
                     live = []
-                    for cond, val in r:
+                    for item in r:
+                        # (condition, value) or (condition, value, events the fork adds to the trace)
+                        cond, val = item[0], item[1]
                         if self.feasible(p, cond):
-                            live.append((cond, val))
+                            live.append((cond, val, list(item[2]) if len(item) > 2 else []))
                     if not live:
                         raise Done("dead")
                     if ret is None:
                         raise Done("diverged")
-                    for cond, val in live[1:]:
+                    for cond, val, evs in live[1:]:
                         q = p.clone()
                         q.pc.append(cond)
+                        q.trace = q.trace + evs
                         self.assign(q, dst, val)
                         work.append((q, ret))
                     p.pc.append(live[0][0])
+                    p.trace = p.trace + live[0][2]
                     self.assign(p, dst, live[0][1])
                     bb = ret
                     continue
